@@ -667,7 +667,7 @@ def run(ctx, prop='C01'):
                         'BLAS gemm and np.dot compute matrix products', 'x86 longdouble (64-bit mantissa) reference sums are exact to 1e-15 relative',
                         'the dyadic grid parameters generated are exactly representable, so the model sees the rationals the code sees']
     thorough = ctx.tier == 'thorough'
-    n = ctx.scale(140, 600)
+    n = ctx.scale(140, 900)
     cases = [dict(c) for c in DIRECTED]
     for i in range(n):
         cases.append(gen_case(ctx.rng, big=thorough and i % 4 == 0))
